@@ -202,16 +202,11 @@ def run(ctx):
         lp = forall_loop(ctx, f, "LOOPDOM", "G34:zero-constant-share-verified-per-sender", lambda s: s == ("arg", 3),
                          [("SecretShare{[identity]++c_ell}.verify()?", chk)], require_fail_err=False)
         if lp is not None:
-            it = lp["iter_term"]
-            item = lambda t: t[0] == "some" and is_call(t[1], name="next") and t[1][2][0] == it
-            m = chk(item)
-            edges = {e for (e, fa) in v.facts if m(fa) == "pass"}
-            adds = set()
-            for (bb, t, ci) in f.calls():
-                if ci and ci.get("name") == "add" and bb in lp["body"]:
-                    if any(mentions(x, lambda s: fld(tfield(item, 1), "signing_share")(s)) for x in v.call_args(bb)):
-                        adds.add(bb)
-            ctx.check(bool(adds) and not sep(f, edges, adds), "LOOPDOM", f.key, "G34:accumulate-after-verify",
+            # in the element context (loop body, try_fold / map closure, helper): the share is added only behind its check
+            item = lp["item"]
+            takes_share = lambda ci, a: bool(ci) and ci.get("name") == "add" and \
+                any(mentions(x, lambda s: fld(tfield(item, 1), "signing_share")(s)) for x in a)
+            ctx.check(used_after_check(lp, takes_share), "LOOPDOM", f.key, "G34:accumulate-after-verify",
                       "a refreshing share is added without (or before) its zero-constant verification", f.loc)
         # old verifying share must exist for every identifier
         src3 = lambda s: mentions(s, lambda u: is_call(u, name="from_dkg_commitments"))
